@@ -181,6 +181,8 @@ def microOp (m : MS) (w : List String) : MS × String :=
   let f := m.fixed
   match w with
   | ["new", fx] => ({ fixed := fx == "1" }, "ok")
+  | ["new", fx, sa] =>
+    ({ fixed := fx == "1", st := { InFlight.initSt [] with scanAtomic := sa == "1" } }, "ok")
   | ["dump"] => (m, microDump m)
   | ["put", o] =>
     let r := fin (applySteps f s [.put o.toNat!]) (fun _ => "ok")
@@ -225,7 +227,7 @@ def microOp (m : MS) (w : List String) : MS × String :=
     fin (applySteps f s [.scanPeek t.toInt!]) (fun s' => if s'.conts.length > s.conts.length then "parked" else "ok")
   | ["scanResume", o, t] =>
     let n := o.toNat!
-    let had := decide (n ∈ s.map)
+    let had := s.scanAtomic || decide (n ∈ s.map)
     match applySteps f s [.scanPop n] with
     | .ok s1 =>
       if had then
